@@ -11,7 +11,10 @@
 (*                  (<=> bytes released in ANY interval <= burst + rate/0.8 *)
 (*                  x interval).  The statement only says "a bounded burst";*)
 (*                  the observer allows twice the pacer's nominal burst     *)
-(*                  max(4 ms x rate/0.8, 10 datagrams).                     *)
+(*                  max(4 ms x rate/0.8, 10 datagrams).  Sends that bypass  *)
+(*                  pacing (probes) or exceed one datagram are not counted  *)
+(*                  as released, but empty the observer as they must empty  *)
+(*                  the pacer (accrual restarts at the time of that send).  *)
 (*   AckRateRange   0.8 <= factor <= 1 after every ack/loss batch           *)
 (*   AckRateValue   factor = 1 when disabled or < 50 samples, else          *)
 (*                  max(0.8, acked/(acked+lost)) over the last five         *)
@@ -93,8 +96,9 @@ MonStart(cfg, bpsW, mds, nocomp) ==
       mds    |-> mds,
       nocomp |-> nocomp,
       b1     |-> b1,                \* nominal burst for the current datagram size
-      slack  |-> WMulS(b1, cfg.slackMul),   \* VIOLATION only below -slack; DRIFT below 0
-      lev    |-> WAdd(b1, WMulS(b1, cfg.slackMul)),      \* observer level + slack, in [0, b1 + slack]
+      slack  |-> WMulS(b1, cfg.slackMul),   \* extra depth tolerated by the verdict observer
+      lev    |-> WAdd(b1, WMulS(b1, cfg.slackMul)),      \* verdict observer, depth b1 + slack  (RateBound)
+      levN   |-> b1,                                      \* nominal observer, depth b1          (DRIFT_RateNominal)
       tl     |-> <<0, 0>>,          \* time of the last observer update
       now    |-> <<0, 0>>,          \* latest time seen (environment: monotone)
       grant  |-> FALSE,             \* the last HasPacingBudget said yes and nothing was sent since
@@ -122,24 +126,40 @@ HasBudgetStep(m, e, ln) ==
 UntilStep(m, e, ln) ==
   [m EXCEPT !.wake = <<(IF e.zero THEN <<0, 0>> ELSE e.at)>>]
 
+\* OnPacketSent(t, size).  The observer is the pacer's own bucket run at the highest rate the property allows
+\* (twice: with the tolerated depth for the verdict, with the nominal depth for drift):
+\*   - a PACED send (sent on a HasPacingBudget grant) releases need = min(size, one datagram) bytes: the
+\*     observer must hold that much (RateBound otherwise) and pays for it;
+\*   - whatever a send takes beyond that - a packet that bypasses pacing (PTO / tail-loss probe, ACK-only
+\*     packet: need = 0) or the part of an oversize packet (path-MTU probe) above one datagram - is not
+\*     "released by pacing", but it overdraws the bucket exactly as in the pacer: the level drops by it,
+\*     floored at zero, and accrual restarts from the time of that send.
+\* Invariant on a correct pacer: observer level >= pacer budget (same operations, rate >= bandwidth,
+\* depth >= maxBurst), so a grant always finds need bytes in the observer.
+Bucket(lev, first, depth, acc, cost, extra) ==      \* <<short, level after the send>>
+  LET lev1  == IF first THEN depth ELSE WMin(depth, WAdd(lev, acc))
+      short == ~WLeq(cost, lev1)
+      a     == IF short THEN <<>> ELSE WSub(lev1, cost)
+  IN <<short, IF WLeq(extra, a) THEN WSub(a, extra) ELSE <<>> >>
+
 SendStep(m, e, ln) ==
   LET envT   == EnvTime(m, e.t)
-      envP   == e.paced /\ (~m.grant \/ e.size > m.mds \/ e.size <= 0)
+      envP   == e.size <= 0 \/ (e.paced /\ ~m.grant)
       m1     == [Tick(m, e.t) EXCEPT !.grant = FALSE, !.wake = <<>>, !.envbad = m.envbad \/ envT \/ envP]
-  IN IF ~e.paced \/ envT \/ envP THEN
+  IN IF envT \/ envP THEN
         [m1 EXCEPT !.viol = VAll(m.viol, e, ln, << <<"DRIFT_EnvTime", Once(m, "DRIFT_EnvTime", envT)>>, <<"DRIFT_EnvPaced", Once(m, "DRIFT_EnvPaced", envP)>> >>)]
      ELSE
-        LET depth == WAdd(m.slack, m.b1)
-            acc   == WMul(m.bps5, TDiff(m.cfg, m.tl, e.t))
-            lev1  == IF m.tl = <<0, 0>> THEN depth           \* first paced send: the bucket starts full
-                     ELSE WMin(depth, WAdd(m.lev, acc))
-            cost  == WMul(m.u4, W(e.size))
-            over  == ~WLeq(cost, lev1)
-            lev2  == IF over THEN <<>> ELSE WSub(lev1, cost)
-        IN [m1 EXCEPT !.lev = lev2, !.tl = e.t,
+        LET first == m.tl = <<0, 0>>                                   \* first send: the bucket starts full
+            acc   == IF first THEN <<>> ELSE WMul(m.bps5, TDiff(m.cfg, m.tl, e.t))
+            need  == IF e.paced THEN Min2(e.size, m.mds) ELSE 0
+            cost  == WMul(m.u4, W(need))
+            extra == WMul(m.u4, W(e.size - need))
+            loose == Bucket(m.lev, first, WAdd(m.slack, m.b1), acc, cost, extra)
+            nom   == Bucket(m.levN, first, m.b1, acc, cost, extra)
+        IN [m1 EXCEPT !.lev = loose[2], !.levN = nom[2], !.tl = e.t,
                       !.viol = VAll(m.viol, e, ln,
-                         << <<"RateBound", ~m.envbad /\ over>>,
-                            <<"DRIFT_RateNominal", Once(m, "DRIFT_RateNominal", ~over /\ ~WLeq(m.slack, lev2))>> >>)]
+                         << <<"RateBound", ~m.envbad /\ loose[1]>>,
+                            <<"DRIFT_RateNominal", Once(m, "DRIFT_RateNominal", ~loose[1] /\ nom[1])>> >>)]
 
 \* expected factor (as floor(f * 2^16)) for the batches with sec >= cur - k
 Floor16(a, n) ==      \* floor(a * 2^16 / n) for 0 <= a <= n < 2^30 by long division
